@@ -1,6 +1,7 @@
 """C03 - AgentSet behaves as an ordered set and its queries match list semantics.
 Model: coq/Model/AgentSet.v.  Histories work on a pool of up to 6 sets derived from one another."""
 import itertools
+import json
 
 import coqlit as L
 
@@ -15,37 +16,61 @@ TABLE_CONSTRUCTS = ["agentset_select_fast", "agentset_select_limit", "agentset_s
                     "agentset_select_inplace", "agentset_select_skeleton", "agentset_sort_reverse", "agentset_sort_inplace",
                     "agentset_shuffle", "agentset_get", "agentset_defaults", "agentset_glue", "agentset_groupby_count",
                     "agentset_groupby_agg"]
-RULE = ("histories = up to 10 agents of classes A(mesa.Agent), B(A), C(B), D(A) with small int attributes a0..a2 (ties; "
-        "a1/a2 missing on some agents), an initial AgentSet (all / subset / permuted / with duplicates / empty) in slot 0 of a "
-        "pool of 6 slots, then <= 25 operations select/sort/shuffle (in-place or copying into another slot), groupby (+ count/agg/do), "
-        "groupby().groups[k], get, set, agg, map, add, discard, remove, in, len, [i], [i:j], iter, pop, clear, index, count, "
-        "reversed on any filled slot; "
-        "at_most from {0,1,2,|s|-1,|s|,|s|+1,inf,0.0,k/2^j,1.0}; non-trivial = at least 3 operations of which one returns "
-        "a non-empty answer and at least two slots are filled at the end; distinct = by SHA1 of the history")
+RULE = ("histories = up to 10 (thorough: 12) agents of classes A(mesa.Agent), B(A), C(B), D(A), F(A, Falsy mixin: truth value False) "
+        "with small int attributes a0..a2 (ties; a1/a2 missing on some agents), an initial AgentSet (all / subset / permuted / with "
+        "duplicates / empty) in slot 0 of a pool of 6 slots, then <= 25 (32) operations on any filled slot: select / sort (int, "
+        "tuple and string keys) / shuffle in place or copying into another slot, groupby with both result types (+ groups[k], count, "
+        "agg, map, do by method name and by callable), get, set, agg, map, add, discard, remove, in, len, [i], [i:j] (+ steps), iter "
+        "(with an abandoned iterator kept alive), pop, clear, index, count, reversed, the set operators | & - ^ and |= &= -= ^=, "
+        "== <= isdisjoint; 6% of the operations repeat the previous call; at_most from {0,1,2,|s|-1,|s|,|s|+1,inf,0.0,k/2^j,1.0}; "
+        "filters incl. callable objects whose truth value is False; keyword and positional call forms; 17 corpus + 16 deterministic "
+        "corner histories (every at_most form, ties in both directions, empty set, missing attributes, set algebra, GroupBy.map/do, "
+        "string keys, the at_most boundary) first; plus an ORACLE-ONLY stream (100 / 3000 histories) with attribute values and "
+        "constants that are floats (non-dyadic), ints above 2^53, strings, tuples, bools, Fraction / Decimal, numpy scalars, None, "
+        "mixed, and at_most given as numpy.float64 / numpy.int64 / bool / 2^70 / non-dyadic floats; the enumerator sweeps every "
+        "member list over <= 2 (thorough / broken: 4) agents with a0 in {0,1} x every select / sort / groupby form; "
+        "non-trivial = at least 3 operations of which one returns a non-empty answer and at least two slots are filled at the end; "
+        "distinct = by SHA1 of the history")
 TRUSTED_BASE = [
-    "Coq 8.16.1 kernel (coqc); vm_compute used for the non-vacuity examples and for evaluating the model in the correspondence",
-    "no axioms: Print Assumptions reports 'Closed under the global context' for every C03 theorem",
-    "harness/props/C03.py driver+observer and the Gallina literal printer (T2, differential testing, not a proof)",
-    "harness/pyexpr.py + harness/tables/agentset_code.py (T1, code level): select's tests/arithmetic/loop, sort's reverse=, "
-    "the in-place branches and get's branch structure are translated from the working tree; dict/weakref glue is compared verbatim",
-    "Model/AgentSet.v is a hand transcription of mesa/agent.py AgentSet; WeakKeyDictionary = insertion-ordered key list "
-    "(all agents stay referenced by the model registry), Python int = Z, sorted(reverse=) = stable insertion sort with >=",
-    "user code (filters, keys, map functions) ranges over the small DSLs pred/keyf/mapf; the driver builds the same closures",
+    "Coq 8.16.1 kernel (coqc; coqchk in the thorough tier: no axioms); vm_compute used for the 19 non-vacuity Examples and for evaluating the model in the correspondence",
+    "no axioms: Print Assumptions reports 'Closed under the global context' for each of the 76 C03 theorems",
+    "harness/props/C03.py driver+observer and the Gallina literal printer (T2, differential testing, not a proof); every operation "
+    "runs under a CPU-time alarm so that a non-terminating implementation is reported, not hung",
+    "harness/pyexpr.py + harness/tables/agentset_code.py (T1, code level, 14 constructs): select's fast-path test, at_most conversion, "
+    "counting loop (initial count, break test, keep test, update), sort's reverse= argument, the in-place/copy branches of select / "
+    "sort / shuffle, get's branch structure, the GroupBy.count / agg comprehensions and the signature defaults are TRANSLATED from "
+    "the working tree; the dict / weak-reference statements (groupby, set, agg, __getitem__, add, discard, remove, _update, __len__, "
+    "__iter__, __contains__, GroupBy.map / do / __init__, glue of select / sort / shuffle) are compared statement by statement "
+    "modulo local-variable names, docstrings and message texts",
+    "Model/AgentSet.v is a hand transcription of mesa/agent.py AgentSet + GroupBy and of the collections.abc Set / MutableSet / "
+    "Sequence mixins it inherits; Proofs/AgentSetBridge.v proves model function = translated function for the translated parts; "
+    "WeakKeyDictionary = insertion-ordered key list (all agents stay referenced by the model registry), Python int = Z, "
+    "sorted(reverse=) = stable insertion sort with >=, str order = lexicographic order on lists of codes",
+    "user code (filters, keys, map / group functions) ranges over the small DSLs pred / keyf / mapf / gmeth; the driver builds the same closures",
     "Uint63 primitive hash only in scratch Cases files, never under a theorem",
 ]
 ASSUMPTIONS = [
-    "attribute values, at_most counts and indices are Python ints; float at_most values are dyadic k/2^j in [0,1] (exact in binary64)",
-    "at_most < 0, float at_most > 1.0, non-pure filters and agents garbage-collected while in a set are outside the quantifier and not generated",
-    "shuffle: which permutation is not part of the statement; the outcome is recorded and legality-checked",
-    "when evaluating a filter/key on the whole member list would raise (missing attribute) the oracle accepts the exception "
-    "or, for select, the result of the lazy evaluation; it always demands an unchanged state after an exception",
+    "in the model, attribute values, at_most counts and indices are ints, string keys come from a fixed table of ten names, float at_most "
+    "values are dyadic k/2^j; every other value domain (non-dyadic floats, big ints, str, tuple, bool, Fraction, Decimal, numpy scalars, "
+    "None) is covered by the oracle-only stream against Python list semantics, not by the model",
+    "at_most < 0 and float at_most > 1.0 are outside the statement's quantifier: the model follows the code there too (theorems "
+    "C03_boundary_*), T2 pins it on one deterministic corner history, the oracle only demands an in-order sub-list",
+    "for a non-dyadic float at_most the oracle accepts the floor of the exact binary value times the size and the floor of the decimal the "
+    "user wrote (they differ e.g. for 0.7 of 10)",
+    "shuffle: which permutation is not part of the statement; the outcome is recorded and legality-checked (the check accepts exactly the permutations: theorem)",
+    "when evaluating a filter / key on the whole member list would raise, the oracle accepts the same exception type or, for select, the "
+    "result of the lazy evaluation; it always demands an unchanged state after an exception (also keyed C18/...)",
+    "the order of the results of the set operators and groups[absent] on result_type='list' are not judged by the oracle (outside the "
+    "statement); the model documents them and T2 pins them",
+    "not covered: agents garbage-collected while in a set and do / shuffle_do (C04), pickling / deepcopy (C19), the generator carried by "
+    "derived sets (C01), non-pure filters, GroupBy.map / do with methods other than len / get / set",
 ]
 ENUM_ALWAYS = True     # the targeted sweep of small shapes is cheap (~5 s): run it in the quick tier too
 NSLOTS = 6
 NATTR = 3
 E_ATTR, E_KEY, E_VALUE, E_INDEX = 1, 2, 3, 4
 _EXC_KIND = {AttributeError: E_ATTR, KeyError: E_KEY, ValueError: E_VALUE, IndexError: E_INDEX}
-PARENT = {0: None, 1: 0, 2: 1, 3: 0}
+PARENT = {0: None, 1: 0, 2: 1, 3: 0, 4: 0}
 NAMES = ["", "a", "ab", "abc", "b", "ba", "B", "aa", "z", "Zz"]     # Model/AgentSet.v: names
 
 
@@ -56,7 +81,41 @@ def _enc_str(x):
 
 
 def _z(x):
-    return _enc_str(x) if isinstance(x, str) else int(x)
+    if isinstance(x, str) and len(x) <= 3 and all(0 < ord(c) < 128 for c in x):
+        return _enc_str(x)
+    if type(x) is int or type(x) is bool:
+        return int(x)
+    import zlib
+    return zlib.crc32(repr(x).encode())      # rich (oracle-only) values: any stable number
+
+
+def _val(v):
+    """attribute / constant values of the oracle-only rich stream, JSON-encoded as [tag, text]"""
+    if not isinstance(v, list):
+        return v
+    tag = v[0]
+    if tag == "none":
+        return None
+    if tag == "f":
+        return float(v[1])
+    if tag == "big":
+        return int(v[1])
+    if tag == "s":
+        return v[1]
+    if tag == "t":
+        return tuple(_val(x) for x in v[1])
+    if tag == "b":
+        return bool(v[1])
+    if tag == "frac":
+        from fractions import Fraction
+        return Fraction(v[1])
+    if tag == "dec":
+        from decimal import Decimal
+        return Decimal(v[1])
+    if tag == "np":
+        import numpy as np
+        return getattr(np, v[1])(float(v[2]) if "float" in v[1] else int(v[2]))
+    raise ValueError(v)
 
 
 # ------------------------------------------------------------------ generation
@@ -115,10 +174,10 @@ def _rand_atmost(rng, n):
 def _rand_agents(rng, n):
     mode = rng.random()
     agents = []
-    onecls = rng.randrange(4)
+    onecls = rng.randrange(5)
     lo, hi = rng.choice([(0, 1), (0, 2), (-2, 3), (0, 5)])
     for _ in range(n):
-        cls = onecls if mode < 0.3 else rng.randrange(4)
+        cls = onecls if mode < 0.3 else rng.randrange(5)
         attrs = [[0, rng.randint(lo, hi)]]
         if rng.random() < 0.02:
             attrs = []
@@ -154,7 +213,9 @@ def _rand_op(rng, filled, n):
     r = rng.random()
     if r < 0.22:
         p = _rand_pred(rng) if rng.random() < 0.75 else None
-        ty = rng.randrange(4) if rng.random() < 0.35 else None
+        ty = rng.randrange(5) if rng.random() < 0.35 else None
+        if p is not None and rng.random() < 0.12:
+            p = ["falsy", p]       # a callable filter OBJECT whose truth value is False
         return ["select", s, p, _rand_atmost(rng, n), ty, inplace, d]
     if r < 0.36:
         key = ["pair", _rand_key(rng), _rand_key(rng)] if rng.random() < 0.25 else _rand_key(rng)
@@ -234,7 +295,10 @@ def _rand_case(rng, nmax=10, maxops=25):
     ops = []
     filled = {0}
     for _ in range(rng.randint(3, maxops)):
-        op = _rand_op(rng, filled, n)
+        if ops and rng.random() < 0.06 and ops[-1][0] != "shuffle":
+            op = json.loads(json.dumps(ops[-1]))      # the same call a second time, nothing in between
+        else:
+            op = _rand_op(rng, filled, n)
         ops.append(op)
         if op[0] in ("select", "sort", "shuffle", "setop") and not op[-2] and 0 <= op[-1] < NSLOTS:
             filled.add(op[-1])
@@ -243,8 +307,61 @@ def _rand_case(rng, nmax=10, maxops=25):
     return {"seed": rng.randrange(1000), "agents": agents, "init": init, "ops": ops}
 
 
+_RICH_DOMAINS = {
+    "float": [["f", "0.1"], ["f", "0.2"], ["f", "0.30000000000000004"], ["f", "0.7"], ["f", "-2.25"], ["f", "1e18"], ["f", "9007199254740994.0"], ["f", "0.1"]],
+    "bigint": [["big", str(2 ** 53 + 1)], ["big", str(2 ** 53)], ["big", str(2 ** 53 + 2)], ["big", str(2 ** 64)], ["big", str(-2 ** 70)], ["big", str(2 ** 53 + 1)]],
+    "str": [["s", "pear"], ["s", "apple"], ["s", "Apple"], ["s", ""], ["s", "apple"], ["s", "zebra longer than three"]],
+    "tuple": [["t", [1, 2]], ["t", [1, 1]], ["t", [0, 9]], ["t", [1, 2]], ["t", []], ["t", [1]]],
+    "bool": [["b", True], ["b", False], 1, 0, 2],
+    "exact": [["frac", "1/3"], ["frac", "2/6"], ["frac", "1/2"], ["dec", "0.5"], ["dec", "0.10"], 1],
+    "numpy": [["np", "float64", "0.5"], ["np", "int64", "3"], ["np", "int64", "1"], ["np", "float64", "1.0"], 3],
+    "withnone": [["none"], 1, 2, ["none"], 0],
+    "mixed": [1, ["s", "a"], ["none"], ["f", "1.5"], ["t", [1]]],
+}
+
+
+def _rand_rich_case(rng):
+    """oracle-only stream: attribute values, constants and at_most forms beyond the model's ints (lessons a, f, j)"""
+    n = rng.randint(2, 8)
+    doms = [rng.choice(sorted(_RICH_DOMAINS)) for _ in range(NATTR)]
+    agents = []
+    for _ in range(n):
+        attrs = [[k, rng.choice(_RICH_DOMAINS[doms[k]])] for k in range(NATTR) if k == 0 or rng.random() < 0.8]
+        agents.append([rng.randrange(5), attrs])
+    ops = []
+    ams = [["npfloat", 1, 1], ["npfloat", 3, 2], ["npint", 2], ["bool", True], ["bool", False], ["big", str(2 ** 70)],
+           ["real", "0.7"], ["real", "0.3"], ["real", "0.1"], ["real", "0.6"], ["real", "0.29"], ["real", "0.9999999999999999"], ["inf"], ["int", 2]]
+    for _ in range(rng.randint(4, 14)):
+        k = rng.randrange(NATTR)
+        c = rng.choice(_RICH_DOMAINS[doms[k]])
+        r = rng.random()
+        d = rng.randrange(NSLOTS)
+        s = 0 if rng.random() < 0.7 else d
+        if r < 0.3:
+            p = rng.choice([None, ["le", k, c], ["eq", k, c], ["not", ["eq", k, c]], ["falsy", ["le", k, c]]])
+            ops.append(["select", s, p, rng.choice(ams), rng.choice([None, None, 0, 4]), rng.random() < 0.3, d])
+        elif r < 0.5:
+            key = ["attr", k] if rng.random() < 0.7 else ["pair", ["attr", k], ["id"]]
+            ops.append(["sort", s, key, rng.random() < 0.5, rng.random() < 0.3, d])
+        elif r < 0.6:
+            ops.append(["get", s, [k, rng.randrange(NATTR)], rng.random() < 0.5, rng.choice([0, 1]), rng.choice([["none"], c, 0])])
+        elif r < 0.7:
+            ops.append(["set", s, rng.randrange(NATTR), c])
+        elif r < 0.8:
+            ops.append(["agg", s, k, rng.choice(["sum", "min", "max", "len"])])
+        elif r < 0.87:
+            ops.append(["map", s, ["key", ["attr", k]]])
+        elif r < 0.94:
+            ops.append(["groupby", s, ["attr", k], rng.choice(["agentset", "list"])])
+        else:
+            ops.append(["groupcount", s, ["attr", k]])
+    return {"rich": True, "seed": rng.randrange(1000), "agents": agents, "init": list(range(1, n + 1)), "ops": ops}
+
+
 def gen_cases(rng, tier):
     cases = list(_corner_cases())
+    for _ in range(100 if tier == "quick" else 3000):
+        cases.append(_rand_rich_case(rng))
     n = 800 if tier == "quick" else 24000
     for _ in range(n):
         if tier != "quick" and rng.random() < 0.2:
@@ -279,6 +396,12 @@ def _corner_cases():
     yield {"seed": 2, "agents": ags, "init": ids, "ops": [["select", 0, None, am, None, False, 1] for am in ams]}
     yield {"seed": 2, "agents": ags, "init": ids, "ops": [["select", 0, ["le", 0, 0], am, None, False, 1] for am in ams]}
     yield {"seed": 2, "agents": ags, "init": ids, "ops": [["select", 0, None, am, 0, False, 1 + i % 2] for i, am in enumerate(ams)]}
+    # a filter object whose truth value is False is still a filter; agents whose truth value is False are agents
+    fa = [[4, [[0, 1]]], [0, [[0, 0]]], [4, [[0, 0], [1, 2]]], [1, [[0, 1]]]]
+    yield {"seed": 11, "agents": fa, "init": [1, 2, 3, 4], "ops": [
+        ["select", 0, ["falsy", ["le", 0, 0]], ["inf"], None, False, 1], ["select", 0, ["falsy", ["false"]], ["int", 2], None, False, 2],
+        ["select", 0, ["falsy", ["le", 0, 0]], ["frac", 1, 1], 4, True, 0], ["select", 1, None, ["inf"], 4, False, 3], ["sort", 1, ["cls"], True, False, 4],
+        ["shuffle", 1, False, 5], ["groupby", 1, ["cls"], "list"], ["setop", 1, 3, "sub", False, 5], ["pop", 1], ["contains", 1, 3], ["indexof", 1, 3]]}
     # subclasses
     yield {"seed": 3, "agents": ags, "init": ids, "ops": [["select", 0, None, ["inf"], ty, False, 1 + ty] for ty in range(4)]
            + [["select", 0, ["true"], ["int", 1], ty, True, 0] for ty in (1,)] + [["len", 0]]}
@@ -385,7 +508,17 @@ def _classes():
         class D(A):
             pass
 
-        _CLASSES = [A, B, C, D]
+        class Falsy:      # a mixin placed after the framework base in the MRO
+            def __bool__(self):
+                return False
+
+            def __len__(self):
+                return 0
+
+        class F(A, Falsy):    # agents whose truth value is False
+            pass
+
+        _CLASSES = [A, B, C, D, F]
     return _CLASSES
 
 
@@ -396,14 +529,24 @@ def _mk_pred(p):
     if k == "false":
         return lambda a: False
     if k == "le":
-        name, c = f"a{p[1]}", p[2]
+        name, c = f"a{p[1]}", _val(p[2])
         return lambda a: getattr(a, name) <= c
     if k == "eq":
-        name, c = f"a{p[1]}", p[2]
+        name, c = f"a{p[1]}", _val(p[2])
         return lambda a: getattr(a, name) == c
     if k == "idmod":
         m, r = p[1], p[2]
         return lambda a: a.unique_id % m == r
+    if k == "falsy":
+        inner = _mk_pred(p[1])
+
+        class FalsyFilter:
+            def __call__(self, a):
+                return inner(a)
+
+            def __len__(self):
+                return 0
+        return FalsyFilter()
     if k == "not":
         f = _mk_pred(p[1])
         return lambda a: not f(a)
@@ -499,12 +642,15 @@ def _run_impl(case, mesa, AgentSet, arm):
     for cls, attrs in case["agents"]:
         a = cl[cls](model)
         for n, v in attrs:
-            setattr(a, f"a{n}", v)
+            setattr(a, f"a{n}", _val(v))
         agents.append(a)
     byid = {a.unique_id: a for a in agents}
     assert sorted(byid) == list(range(1, len(agents) + 1))
     pool = [None] * NSLOTS
-    pool[0] = AgentSet([byid[i] for i in case["init"] if i in byid], random=model.random)
+    init_list = [byid[i] for i in case["init"] if i in byid]
+    init_copy = list(init_list)
+    pool[0] = AgentSet(init_list, random=model.random)
+    abandoned = []      # iterators that were started and never finished, kept alive
     # the oracle's own state: plain lists of agents, plain dicts of attributes
     shadow = [None] * NSLOTS
     shadow[0] = list(dict.fromkeys(byid[i] for i in case["init"] if i in byid))
@@ -527,7 +673,7 @@ def _run_impl(case, mesa, AgentSet, arm):
         o.append(-6)
         for a in agents:
             for n in range(NATTR):
-                o += [1, getattr(a, f"a{n}")] if hasattr(a, f"a{n}") else [0, 0]
+                o += [1, _z(getattr(a, f"a{n}"))] if hasattr(a, f"a{n}") else [0, 0]
         return o
 
     def check_state(i, kind, touched_slot=None, rejected=False):
@@ -541,7 +687,9 @@ def _run_impl(case, mesa, AgentSet, arm):
                     fail(i, f"C03/{kind}/state-changed-by-rejected-call",
                          f"{case['ops'][i]} raised but slot {s} changed from {ids(shadow[s])} to {ids(got)}")
                 elif s == touched_slot:
-                    fail(i, f"C03/{kind}/wrong-result",
+                    opi = case["ops"][i]
+                    falsy = kind == "select" and opi[2] is not None and opi[2][0] == "falsy"
+                    fail(i, "C03/select/falsy-filter-ignored" if falsy else f"C03/{kind}/wrong-result",
                          f"{case['ops'][i]}: slot {s} holds {ids(got)}, list semantics gives {ids(shadow[s])}")
                 else:
                     fail(i, f"C03/{kind}/altered-another-set",
@@ -579,6 +727,7 @@ def _run_impl(case, mesa, AgentSet, arm):
             continue
         st = pool[s]
         before = list(shadow[s])
+        ref_err = None      # the exception TYPE the same operation on the member list raises, if any
         ret = None
         touched = None
         exc = None
@@ -595,12 +744,28 @@ def _run_impl(case, mesa, AgentSet, arm):
                 _, _, p, am, ty, inplace, d = op
                 f = _mk_pred(p) if p is not None else None
                 tycls = cl[ty] if ty is not None else None
+                n_alt = None
                 if am[0] == "inf":
                     at_most, n = float("inf"), None
                 elif am[0] == "int":
                     at_most, n = am[1], am[1]
-                else:
+                elif am[0] == "frac":
                     at_most, n = am[1] / float(2 ** am[2]), (len(before) * am[1]) >> am[2]
+                elif am[0] == "npfloat":       # numpy.float64 is a float
+                    import numpy as np
+                    at_most, n = np.float64(am[1] / float(2 ** am[2])), (len(before) * am[1]) >> am[2]
+                elif am[0] == "npint":         # numpy.int64 is a count
+                    import numpy as np
+                    at_most, n = np.int64(am[1]), am[1]
+                elif am[0] == "bool":          # True is the int 1
+                    at_most, n = bool(am[1]), int(am[1])
+                elif am[0] == "big":
+                    at_most = n = int(am[1])
+                else:                          # "real": a non-dyadic float in [0, 1], e.g. 0.7: the floor of the exact
+                    from fractions import Fraction    # binary value or of the decimal the user wrote are both accepted
+                    at_most = float(am[1])
+                    n = int(Fraction(at_most) * len(before))
+                    n_alt = int(Fraction(am[1]) * len(before))
                 boundary = (am[0] == "int" and am[1] < 0) or (am[0] == "frac" and (am[1] < 0 or am[1] > 2 ** am[2]))
                 keepf = lambda a: (f is None or f(a)) and (tycls is None or isinstance(a, tycls))  # noqa: E731
                 if boundary:
@@ -623,6 +788,15 @@ def _run_impl(case, mesa, AgentSet, arm):
                     raise _Done([1 if res is st else 0])
                 eager = _attempt(lambda: [a for a in before if keepf(a)][:n])
                 lazy = _attempt(lambda: list(itertools.islice((a for a in before if keepf(a)), n)))
+                ref_err = eager[1] if eager[0] == "err" else None
+                if n_alt is not None and n_alt != n:
+                    # float rounding: take the reading (exact binary value / the decimal the user wrote) the copying form follows
+                    probe = _attempt(lambda: ids(st.select(inplace=False, filter_func=f, at_most=at_most, agent_type=tycls)))
+                    alt = _attempt(lambda: ids(list(itertools.islice((a for a in before if keepf(a)), n_alt))))
+                    if probe[0] == "ok" and alt[0] == "ok" and probe[1] == alt[1]:
+                        n = n_alt
+                        eager = _attempt(lambda: [a for a in before if keepf(a)][:n])
+                        lazy = _attempt(lambda: list(itertools.islice((a for a in before if keepf(a)), n)))
                 kw = {}
                 if f is not None:
                     kw["filter_func"] = f
@@ -635,11 +809,14 @@ def _run_impl(case, mesa, AgentSet, arm):
                     if list(st) != before:
                         fail(i, "C03/select/copy-altered-original", f"{op}: original {ids(before)} became {ids(st)}")
                     if ids(twin) != ids(eager[1]):
-                        fail(i, "C03/select/wrong-result", f"{op} (copy form) on {ids(before)}: got {ids(twin)}, list semantics gives {ids(eager[1])}")
-                res = st.select(inplace=inplace, **kw)
+                        fail(i, "C03/select/falsy-filter-ignored" if (p is not None and p[0] == "falsy") else "C03/select/wrong-result", f"{op} (copy form) on {ids(before)}: got {ids(twin)}, list semantics gives {ids(eager[1])}")
+                if len(kw) == 3 and i % 3 == 0:      # the same call spelled with positional arguments
+                    res = st.select(kw["filter_func"], kw["at_most"], inplace, kw["agent_type"])
+                else:
+                    res = st.select(inplace=inplace, **kw)
                 exp = eager[1] if eager[0] == "ok" else (lazy[1] if lazy[0] == "ok" else None)
                 if exp is None:
-                    fail(i, "C03/select/no-exception", f"{op} on {ids(before)}: the filter raises {lazy[1].__name__} on a needed agent but select returned {ids(res)}")
+                    fail(i, "C03/select/falsy-filter-ignored" if (p is not None and p[0] == "falsy") else "C03/select/no-exception", f"{op} on {ids(before)}: the filter raises {lazy[1].__name__} on a needed agent but select returned {ids(res)}")
                     exp = list(res)
                 if inplace:
                     if res is not st:
@@ -657,14 +834,19 @@ def _run_impl(case, mesa, AgentSet, arm):
                 kf = _mk_key(key)
                 kc = _mk_key(key, as_callable=True)
                 keys = _attempt(lambda: {a.unique_id: kc(a) for a in before})
-                if inplace and keys[0] == "ok":
+                cmp_ok = _attempt(lambda: sorted(before, key=kc))
+                ref_err = keys[1] if keys[0] == "err" else (cmp_ok[1] if cmp_ok[0] == "err" else None)
+                if inplace and keys[0] == "ok" and cmp_ok[0] == "ok":
                     twin = st.sort(kf, ascending=asc, inplace=False)
                     if list(st) != before:
                         fail(i, "C03/sort/copy-altered-original", f"{op}: original {ids(before)} became {ids(st)}")
                     twin_ids = ids(twin)
                 else:
                     twin_ids = None
-                res = st.sort(kf, **({"ascending": asc} if asc or i % 2 else {}), inplace=inplace)
+                if i % 3 == 0:
+                    res = st.sort(kf, asc, inplace)       # positional
+                else:
+                    res = st.sort(kf, **({"ascending": asc} if asc or i % 2 else {}), inplace=inplace)
                 got = list(res)
                 if keys[0] != "ok":
                     fail(i, "C03/sort/no-exception", f"{op} on {ids(before)}: the key raises {keys[1].__name__} but sort returned {ids(got)}")
@@ -742,6 +924,9 @@ def _run_impl(case, mesa, AgentSet, arm):
                             fail(i, "C03/groupby/result-type", f"{op}: group {k} is a {type(v).__name__}")
                             break
                 if kind == "groupby":
+                    if rt == "list":
+                        for _k, _v in gb:
+                            _v.clear()       # emptying the returned lists must not touch the set
                     ret = [1 if rt == "agentset" else 0, len(groups)] + [x for k, v in groups for x in [k, len(v)] + ids(v)]
                 else:
                     kvq, d = op[3], op[4]
@@ -895,6 +1080,7 @@ def _run_impl(case, mesa, AgentSet, arm):
                     ret = [1 if r else 0]
             elif kind == "get":
                 _, _, names, single, mode, dflt = op
+                dflt = _val(dflt)
                 if single and names:
                     arg = f"a{names[0]}"
                     e = _attempt(lambda: [vars(a)[arg] if mode == 0 else vars(a).get(arg, dflt) for a in before])
@@ -903,6 +1089,8 @@ def _run_impl(case, mesa, AgentSet, arm):
                     arg = [f"a{n}" for n in (names[:1] if single else names)]
                     e = _attempt(lambda: [[vars(a)[x] if mode == 0 else vars(a).get(x, dflt) for x in arg] for a in before])
                     flat = lambda r: [x for row in r for x in row]  # noqa: E731
+                ref_err = e[1] if e[0] == "err" else None
+                arg_copy = list(arg) if isinstance(arg, list) else arg
                 hm = {0: "error", 1: "default"}.get(mode, "bogus")
                 if mode == 0 and i % 2:
                     res = st.get(arg)
@@ -914,9 +1102,13 @@ def _run_impl(case, mesa, AgentSet, arm):
                     fail(i, "C03/get/no-exception", f"{op} on {ids(before)}: an agent lacks the attribute but get returned {res}")
                 elif res != e[1]:
                     fail(i, "C03/get/wrong-values", f"{op} on {ids(before)}: got {res}, list semantics gives {e[1]}")
+                if arg != arg_copy:
+                    fail(i, "C03/get/mutated-argument", f"{op}: the list of names became {arg}")
                 ret = [len(res)] + flat(res)
+                res.clear()
             elif kind == "set":
                 _, _, n, v = op
+                v = _val(v)
                 res = st.set(f"a{n}", v)
                 for a in before:
                     sattrs[a.unique_id][n] = v
@@ -927,6 +1119,7 @@ def _run_impl(case, mesa, AgentSet, arm):
                 _, _, n, fn = op
                 func = {"sum": sum, "min": min, "max": max, "len": len}[fn]
                 e = _attempt(lambda: func([vars(a)[f"a{n}"] for a in before]))
+                ref_err = e[1] if e[0] == "err" else None
                 res = st.agg(f"a{n}", func)
                 if e[0] != "ok":
                     fail(i, "C03/agg/no-exception", f"{op} on {ids(before)}: list semantics raises {e[1].__name__}, agg returned {res}")
@@ -943,6 +1136,7 @@ def _run_impl(case, mesa, AgentSet, arm):
                     c = mf[1]
                     e = _attempt(lambda: [vars(a)["a0"] + c for a in before])
                     res = st.map("plus", c) if i % 2 else st.map("plus", c=c)
+                ref_err = e[1] if e[0] == "err" else None
                 if e[0] != "ok":
                     fail(i, "C03/map/no-exception", f"{op} on {ids(before)}: list semantics raises {e[1].__name__}, map returned {res}")
                 elif res != e[1]:
@@ -1007,8 +1201,15 @@ def _run_impl(case, mesa, AgentSet, arm):
                 e = before[op[2]:op[3]]
                 if list(r) != e:
                     fail(i, "C03/getitem/wrong-slice", f"{op} on {ids(before)}: got {ids(r)}, list gives {ids(e)}")
-                ret = [len(r)] + ids(r)
+                for step in (2, -1, -2):     # extended slices (not in the model): list semantics
+                    if list(st[op[2]:op[3]:step]) != before[op[2]:op[3]:step]:
+                        fail(i, "C03/getitem/wrong-slice", f"{op} with step {step} on {ids(before)}: got {ids(st[op[2]:op[3]:step])}")
+                r.clear()                    # the returned list is the caller's: emptying it must not touch the set
+                ret = [len(e)] + ids(e)
             elif kind == "iter":
+                it0 = iter(st)
+                next(it0, None)
+                abandoned.append(it0)        # started, never finished, never released
                 r = list(iter(st))
                 if r != before:
                     fail(i, "C03/iter/wrong", f"{op} on {ids(before)}: got {ids(r)}")
@@ -1081,6 +1282,8 @@ def _run_impl(case, mesa, AgentSet, arm):
                 expected = byid[op[2]] not in before
             elif k == E_INDEX and kind == "index":
                 expected = not (-len(before) <= op[2] < len(before))
+            if not expected and ref_err is not None and type(exc) is ref_err and case.get("rich"):
+                expected, k = True, 90     # e.g. TypeError from comparing unlike values: list semantics raises it too
             if expected:
                 obs.append([-1, k] + obs_state())
             elif isinstance(exc, _OpTimeout):
@@ -1093,7 +1296,13 @@ def _run_impl(case, mesa, AgentSet, arm):
                 fail(i, f"C03/{kind}/unexpected-exception", f"{op} on {ids(before)} raised {type(exc).__name__}: {exc}")
             shadow[s] = before
             check_state(i, kind, None, rejected=True)
-    return {"obs": obs, "failures": failures, "ops_for_model": ops_for_model}
+    if ids(init_list) != ids(init_copy):
+        failures.append({"key": "C03/constructor/mutated-argument", "op": -1,
+                         "what": f"the list handed to AgentSet(...) became {ids(init_list)} (was {ids(init_copy)})"})
+    out = {"obs": obs, "failures": failures, "ops_for_model": ops_for_model}
+    if case.get("rich"):
+        out["model"] = False       # values the Z-valued model cannot represent: implementation + oracle only
+    return out
 
 
 def _would_raise_attr(op, before, cl):
@@ -1144,6 +1353,8 @@ def _c_pred(p):
         return f"(PAttrEq {L.z(p[1])} {L.z(p[2])})"
     if k == "idmod":
         return f"(PIdMod {L.z(p[1])} {L.z(p[2])})"
+    if k == "falsy":          # the model's filter is a filter whatever its truth value
+        return _c_pred(p[1])
     if k == "not":
         return f"(PNot {_c_pred(p[1])})"
     return f"({'PAnd' if k == 'and' else 'POr'} {_c_pred(p[1])} {_c_pred(p[2])})"
@@ -1246,6 +1457,8 @@ def _c_op(op):
 
 
 def coq_case(case):
+    if case.get("rich"):
+        return "{| c_agents := []; c_init := []; c_ops := [] |}"
     ags = []
     for i, (cls, attrs) in enumerate(case["agents"]):
         at = L.lst([L.pair(L.z(n), L.z(v)) for n, v in attrs])
@@ -1276,16 +1489,29 @@ def nontrivial(case):
     return filled >= 2 and any(o and o[0] == 0 and len(o) > 2 and o[1] != -7 for o in obs)
 
 
-LEVEL_TEXT = ("Machine-checked Coq theorems over a Gallina transcription of AgentSet (select's counting loop with break, "
-              "stable sort in both directions, legality-checked shuffle, defaultdict groupby, get/set/agg/map, add/discard/"
-              "remove/indexing) acting on a pool of sets derived from one another: select = firstn(limit)(filter), sort is a "
-              "stable sorted permutation (and the only one), shuffle keeps exactly the members, groups partition the members in "
-              "first-seen order, the ordered-set laws, in-place = copy, copies and queries leave every other set unchanged, and "
-              "rejected calls leave the whole state unchanged - for every history, by induction over the operation list. "
-              "The model is tied to the code by differential evaluation on random and enumerated histories (T2); an independent "
-              "oracle states the list semantics in Python on the implementation and supplies the failing input.")
-LEVEL_NOTE = ("Theorems are about the model; user functions range over small DSLs; weak-reference death inside a set, do/"
-              "shuffle_do (C04) and pickling (C19) are not part of this model. Trusted: Coq kernel, the driver/observer, "
-              "CPython dict-order semantics as modelled. No axioms.")
-TECHNIQUE = "Coq proof (induction over histories, invariants, refinement to list functions; closed under global context) + vm_compute correspondence"
+LEVEL_TEXT = ("76 machine-checked Coq theorems (each closed under the global context, 19 non-vacuity Examples) over a Gallina model of "
+              "AgentSet + GroupBy acting on a pool of sets derived from one another, for every table, pool, member list, DSL term and "
+              "history: select = firstn(limit)(filter) with the floor-rounded fraction of the original size, raising exactly when the "
+              "counting loop reaches a raising member; sort is THE stable sorted permutation in the requested direction (uniqueness "
+              "theorem, tuple keys lexicographic, string keys via an order-isomorphic code), idempotent, commuting with select; shuffle "
+              "keeps exactly the members (the legality check accepts exactly the permutations); groups partition the members in "
+              "first-seen order, GroupBy.count / agg / map / do on both result types; get / set / agg / map are the list comprehensions; the "
+              "ordered-set laws, the inherited pop / clear / index / count / reversed and the set operators (membership and order); in-place "
+              "= copy for single operations and for whole sequences of them; copies, queries and rejected calls leave every other set and "
+              "every attribute unchanged; no duplicates and no invented member after any history. Code-level T1: the conditions, "
+              "arithmetic, loop and branch structure of select / sort / shuffle / get / GroupBy.count / agg are regenerated from "
+              "mesa/agent.py on every run and proved equal to the model (bridge lemmas robust to harmless rewrites), the remaining "
+              "statements are compared modulo local names; the headline theorems are restated about the generated code "
+              "(C03_*_of_source). T2: differential evaluation of model vs implementation on ~930 (quick) / 27 000 (thorough) histories "
+              "plus an exhaustive sweep of small shapes; an independent list-semantics oracle supplies the failing input, also on an "
+              "oracle-only stream of value domains the model cannot represent. One defect found and repaired: select ignored a filter "
+              "object whose truth value is False (fixes/C03-1-select-falsy-filter.diff).")
+LEVEL_NOTE = ("Theorems are about the model (tied to the code by T1 + T2); user functions range over small DSLs; attribute values in the "
+              "model are ints (strings only as keys from a fixed table) - floats, big ints, str, tuple, bool, Fraction, Decimal, numpy "
+              "scalars and None are oracle-only. Not modelled: weak-reference death inside a set and do / shuffle_do (C04), pickling "
+              "(C19), the generator of derived sets (C01). Trusted: Coq kernel, pyexpr translator + tables module, the driver / observer, "
+              "CPython dict-order and str / tuple comparison semantics as modelled. No axioms.")
+TECHNIQUE = ("Coq proof (induction over histories, invariants, refinement to list functions, uniqueness of the stable sort; closed under the "
+             "global context) + code-level T1 (source translated to Gallina, bridge lemmas, alpha-normalised statement skeletons) + "
+             "vm_compute correspondence + independent list-semantics oracle (incl. an oracle-only rich-value stream)")
 DESIGN_REF = "DESIGN.md section 4, C03"
